@@ -19,7 +19,7 @@ EXPLANATION = (
     "strictness of Huffman padding are value-level and not decided.")
 # every anchor of these rules lives in the h3 crate: thorough tier repeats them on the feature-less build
 EXTRA_CONFIGS = ["h3-plain"]
-RULES = "C15-a Huffman tables vs RFC 7541 App. B (A11); C15-b integer accumulator bound and truncation (A6/A15); C15-c codec entry points (A11)"
+RULES = "C15-a Huffman tables vs RFC 7541 App. B (A11); C15-b integer accumulator bound and truncation (A6/A15); C15-c codec entry points (A11); C15-d end-of-input padding mask evaluated over count 1..8 (extracted-expression evaluation)"
 
 HERE = os.path.dirname(os.path.dirname(os.path.abspath(__file__)))
 REF = json.load(open(os.path.join(HERE, "ref", "rfc7541_huffman_lengths.json")))
@@ -290,4 +290,40 @@ def run(ctx):
             ctx.check(expr.mentions(ln, lambda v: v[0] == "call" and v[1].endswith("::len")) and
                       expr.mentions(ln, lambda v: v[0] == "call" and v[1].endswith("hpack_encode")), "C15-c", se.key,
                       "declared length = length of the Huffman-encoded bytes", "declared length is %s" % pa.vfmt(ln), "")
-    ctx.assume("Huffman padding strictness and round trips are value-level: not decided (DESIGN.md C15)")
+    # ------------------------------------------------------------ C15-d padding bits examined at end of input
+    ce = ru.need(ctx, "C15-d", P + "decode::HuffmanDecoder::check_eof")
+    if ce:
+        ps = [p for p in ru.all_paths(ctx, "C15-d", ce) if p.end == "return"]
+        last = [p for p in ps if any(t[2] == "Equal" for t in p.tests)]
+        acc = [p for p in last if p.ret_shape() == "Ok(None)"]
+        ctx.floor("C15-d", "paths of check_eof on the last byte", len(last), 2)
+        ctx.check(len(acc) >= 1, "C15-d", ce.key, "an accepting path exists for the last byte", "no Ok(None) path on Ordering::Equal", "")
+        for p in acc:
+            tst = [t for t in p.tests if t[3][0] == "binop" and t[3][1] == "Eq" and expr.mentions(t[3], lambda v: v[0] == "binop" and v[1] == "BitAnd")]
+            ok = len(tst) == 1 and tst[0][2] == "true"
+            bad = []
+            if ok:
+                eq = tst[0][3]
+                band, mask = (eq[2], eq[3]) if eq[2][0] == "binop" and eq[2][1] == "BitAnd" else (eq[3], eq[2])
+                rest = band[2] if band[3] == mask else band[3]
+                while rest[0] in ("proj", "okval"):
+                    rest = rest[1]
+                ok = (band[2] == mask or band[3] == mask) and rest[0] == "call" and rest[1] == P + "decode::read_bits"
+                cnt_arg = rest[2][3] if ok else None
+
+                for n in range(1, 9):
+                    def sub(v, n=n):
+                        if v == cnt_arg:
+                            return n
+                        return None
+                    m = expr.fold(mask, consts, sub)
+                    if m != (1 << n) - 1:
+                        bad.append((n, m))
+            ctx.check(ok and not bad, "C15-d", ce.key, "every remaining bit of the last byte must be a one (mask = 2^count - 1 for count 1..8)",
+                      "at end of input the padding test compares the %s remaining bits with a mask that is not all ones for (count, mask) = %s: "
+                      "padding that is not a prefix of the EOS code (RFC 7541 5.2) is accepted" % ("read" if ok else "?", bad[:4] if ok else [(t[1][:80], t[2]) for t in tst]),
+                      "mask evaluated over count 1..8", None, p.describe())
+        for p in last:
+            if p.ret_shape() != "Ok(None)":
+                ctx.check(p.ret_shape().startswith("Err("), "C15-d", ce.key, "anything else on the last byte is an error", "returns %s" % p.ret_shape(), "")
+    ctx.assume("Huffman padding longer than 7 bits and round trips are value-level: not decided (DESIGN.md C15); C15-d decides only that the padding bits examined must all be ones")
